@@ -394,7 +394,34 @@ def genLzma2BigLine (seed idx : Nat) : String :=
     let (bytes, out) := encode2 [.lzma 3 props prog, .raw false [1, 2, 3]]
     s!"mat kind=lzma2big idx={idx} what=unpacked2MiB unpacked={out.length - 3} payload={hexOfBytes bytes} outrle=5a*{out.length - 3}+010203"
 
+/-- exhaustive small scope: every program of 1..4 symbols over a fixed 8-symbol alphabet that is
+well-formed for dictionary `d ∈ {1,2,3}`; props alternate between 0/0/0 and 3/0/2 -/
+def exhAlphabet : List Sym :=
+  [.lit 0x61, .lit 0x62, .mtch 1 2, .mtch 2 3, .mtch 3 2, .shortRep, .rep 0 2, .rep 1 9]
+
+def progOfIndex : Nat → Nat → List Sym
+  | 0, _ => []
+  | len+1, i => exhAlphabet[i % 8]! :: progOfIndex len (i / 8)
+
+def genExhLines (_seed : Nat) : List String := Id.run do
+  let mut out : List String := []
+  let mut idx := 0
+  for len in [1, 2, 3, 4] do
+    for i in List.range (8 ^ len) do
+      let prog := progOfIndex len i
+      for d in [1, 2, 3] do
+        match SpecSt.run d {} prog with
+        | some (st, _) =>
+          let props : Props := if (i + d) % 2 = 0 then { lc := 0, lp := 0, pb := 0 } else { lc := 3, lp := 0, pb := 2 }
+          let payload := encodeSyms props d prog
+          out := (s!"mat kind=lzma idx={idx} lc={props.lc} lp={props.lp} pb={props.pb} dict={d} eos=0 " ++
+            s!"nsyms={prog.length} kinds={symKinds prog} prog={progRepr prog} cum={cumRepr d prog} payload={hexOfBytes payload} out={hexOfBytes st.hist.toList}") :: out
+          idx := idx + 1
+        | none => pure ()
+  return out.reverse
+
 def generate (kind : String) (seed n : Nat) : List String :=
+  if kind == "lzmaexh" then genExhLines seed else
   (List.range n).map fun i =>
     if kind == "lzma" then genLzmaLine seed i
     else if kind == "lzmawrap" then genLzmaWrapLine seed i
